@@ -1,5 +1,5 @@
 """Common machinery of all checks: scratch, MC runs, trace validation, known findings, evidence, replay."""
-import os, sys, json, time, shutil, tempfile, random, hashlib, atexit, re
+import os, sys, json, time, shutil, tempfile, random, hashlib, atexit, re, copy
 
 VERIF = os.path.dirname(os.path.dirname(os.path.abspath(__file__)))
 sys.path.insert(0, os.path.join(VERIF, "lib"))
@@ -223,17 +223,38 @@ class Check:
 
     def classify(self, divs):
         """split divergences into known (open findings) and violations"""
+        recheck = {}
         for d, job in divs:
             hit = None
             for f in self.findings:
                 if f["status"] == "open" and self.match(f, d, job):
                     hit = f; break
+            if hit and hit.get("deviation_field") and job is not None and hasattr(job, "extra") and hit["deviation_field"] not in job.extra:
+                recheck.setdefault(hit["id"], {})[job.id] = (job, hit)
             if hit:
                 self.known_hits[hit["id"]] = self.known_hits.get(hit["id"], 0) + 1
                 if d.get("id", "").startswith("probe:" + hit["id"]) or d.get("id", "") == hit.get("probe_id"):
                     self.probe_hits.add(hit["id"])
             else:
                 self.violations.append((d, job))
+
+        # findings that come with a model of the deviation: the matched sessions are run again and validated against that model; only
+        # executions that conform to it stay attributed to the finding, anything else is a violation of its own
+        for fid, jobs in recheck.items():
+            field = next(iter(jobs.values()))[1]["deviation_field"]
+            again = []
+            for jid, (job, hit) in jobs.items():
+                j2 = copy.copy(job); j2.extra = dict(job.extra, **{field: True}); j2.id = job.id + "~dev"
+                again.append(j2)
+            exe = self.build_obj.exe("vharness") if self.build_obj else None
+            if exe is None or not os.path.exists(exe):
+                continue
+            divs2 = self.validate("Trace_Session", again, "dev" + fid[:6], exe=exe)
+            self.evaluations -= len(again)
+            for d2, j2 in divs2:
+                d2 = dict(d2); d2["note"] = "matches known finding %s only superficially: it does not behave like the recorded deviation either" % fid
+                self.violations.append((d2, j2))
+            self.notes.append("known finding %s: %d sessions re-validated against the model of the deviation, %d do not conform to it" % (fid, len(again), len(divs2)))
 
     def open_findings(self):
         return [f for f in self.findings if f["status"] == "open" and (f["property"] == self.pid)]
